@@ -93,7 +93,7 @@ func loadShapes(t *testing.T) map[string]*typeFacts {
 		t.Fatal(err)
 	}
 	out := map[string]*typeFacts{}
-	for _, n := range []string{"T", "D", "Inner", "Base"} {
+	for _, n := range []string{"T", "D", "E", "H", "Inner", "Base"} {
 		out[n] = collectType(p, n)
 	}
 	return out
@@ -102,7 +102,7 @@ func loadShapes(t *testing.T) map[string]*typeFacts {
 func TestGoldenLockShapes(t *testing.T) {
 	tfs := loadShapes(t)
 	var sb strings.Builder
-	for _, n := range []string{"T", "D", "Inner", "Base"} {
+	for _, n := range []string{"T", "D", "E", "H", "Inner", "Base"} {
 		for _, m := range tfs[n].methods {
 			sb.WriteString(renderMethod(m) + "\n")
 		}
@@ -253,7 +253,37 @@ func TestPinnedRows(t *testing.T) {
 	m = get("NegLocalNamedLikeTheMutex")
 	check(m.mutex == "local:mu" && has(m, "a", "assign", "none", "local:mu"), "a local called mu is not the receiver's mu", m)
 	m = get("NegForeignLockOnly")
-	check(m.mutex == "arg0.mu" && has(m, "a", "assign", "none", "arg0.mu"), "holding another object's lock is not holding the receiver's", m)
+	check(m.mutex == "Inner.mu" && has(m, "a", "assign", "none", "Inner.mu"), "holding another object's lock is not holding the receiver's", m)
+	all := loadShapes(t)
+	hm := func(typ, n string) *method {
+		m := all[typ].byName[n]
+		if m == nil {
+			t.Fatalf("method %s.%s not found", typ, n)
+		}
+		return m
+	}
+	m = hm("D", "PosPromoted")
+	check(m.lock == "write" && m.mutex == "mu" && has(m, "n", "assign", "write", "") && has(m, "x", "assign", "write", ""), "promoted mutex and field of an embedded struct", m)
+	m = hm("D", "PosPromotedExplicitPath")
+	check(m.lock == "write" && m.mutex == "mu" && has(m, "n", "assign", "write", ""), "d.Base.mu / d.Base.n are the promoted d.mu / d.n", m)
+	m = hm("E", "PosEmbeddedMutexPromotedCall")
+	check(m.lock == "read" && m.mutex == "RWMutex" && has(m, "v", "read", "read", ""), "embedded sync.RWMutex: e.RLock()", m)
+	m = hm("E", "PosEmbeddedMutexExplicitPath")
+	check(m.lock == "write" && m.mutex == "RWMutex" && has(m, "v", "assign", "write", ""), "e.RWMutex.Lock() ... e.Unlock() is one lock", m)
+	m = hm("H", "PosDeferReleaserHelper")
+	check(m.lock == "read" && m.mutex == "mu" && m.deferred && has(m, "v", "read", "read", ""), "defer h.rlock()()", m)
+	m = hm("H", "PosReleaserInLocal")
+	check(m.lock == "write" && has(m, "v", "assign", "write", ""), "release := h.wlock(); ...; release()", m)
+	m = hm("H", "PosReleaserInLocalDeferred")
+	check(m.lock == "write" && has(m, "v", "assign", "write", ""), "release := h.wlock(); defer release()", m)
+	m = hm("H", "PosLockUnlockWrappers")
+	check(m.lock == "write" && m.mutex == "mu" && has(m, "v", "assign", "write", ""), "h.lock(); defer h.unlock()", m)
+	m = hm("H", "NegWrapperLockNeverReleased")
+	check(m.lock == "unknown", "wrapper lock never released", m)
+	m = hm("H", "NegReleaserDropped")
+	check(m.lock == "unknown", "releaser dropped: the lock stays held", m)
+	m = hm("H", "NegLockOfDerivedInstance")
+	check(m.mutex == "H.mu" && has(m, "v", "assign", "none", "H.mu"), "lock of another instance is named by type+field", m)
 	m = get("NegGoroutineWrites")
 	check(has(m, "a", "assign", "none", ""), "a goroutine's write is unlocked", m)
 	m = get("NegPreludeTouchesState")
